@@ -101,11 +101,11 @@ func NewDB(conn *sql.DB, schema *Schema) *DB {
 				// and filters to flatten out all pointers to values, etc., to copy what
 				// the row tester does when matching against the binlog. This way, a filter
 				// specifying age=48 will match a value *age=48.
-				matcher.add(i, coerceMap(query.Filter))
+				matcher.add(i, table.comparableValues(query.Filter))
 			}
 			results := make([][]interface{}, len(items))
 			for _, row := range rows {
-				f := coerceMap(table.extractRow(row))
+				f := table.comparableValues(table.extractRow(row))
 				for _, idx := range matcher.match(f) {
 					i := idx.(int)
 					results[i] = append(results[i], row)
@@ -125,6 +125,24 @@ func NewDB(conn *sql.DB, schema *Schema) *DB {
 		},
 	}
 	return db
+}
+
+// comparableValues maps the values of a filter (or of a row) to the driver values
+// of their columns, so that Go values of different types that denote the same
+// column value (int and int64, a value and a pointer to it, named types) compare
+// equal, the way they do in SQL.
+func (t *Table) comparableValues(m map[string]interface{}) map[string]interface{} {
+	c := coerceMap(m)
+	for k, v := range m {
+		column, ok := t.ColumnsByName[k]
+		if !ok {
+			continue
+		}
+		if dv, err := column.Descriptor.Valuer(reflect.ValueOf(v)).Value(); err == nil {
+			c[k] = dv
+		}
+	}
+	return c
 }
 
 // WithShardLimit scopes the DB to only allow queries with the given key-value
